@@ -22,9 +22,9 @@ def config(quick):
 def config_attrs(quick):
     """(B) attribute lists over 2 loggers, every way of giving a logger an attribute."""
     opt = lambda k, a, b=0: dict(k=k, a=a, b=b)
-    sa = {"Attrs": [(1, 1), (3, 2)], "Attrs1": [(2, 1), (1, 2)], "SetKV": [(1, 3)]}
+    sa = {"Attrs": [(1, 1), (3, 2)], "Attrs1": [(2, 1), (1, 2)], "SetKV": [(1, 3)], "Attrs0": [(0, 0), (1, 0), (2, 0), (3, 0)]}
     if not quick:
-        sa = {"Attrs": [(1, 1), (3, 2)], "Attrs1": [(2, 1), (1, 2)], "SetKV": [(1, 3), (2, 4)]}
+        sa = {"Attrs": [(1, 1), (3, 2)], "Attrs1": [(2, 1), (1, 2)], "SetKV": [(1, 3), (2, 4)], "Attrs0": [(0, 0), (1, 0), (2, 0), (3, 0)]}
     return dict(
         max_loggers=2, init_level=5, names=["a"], bool_lists=BOOL_LISTS, layouts=[""],
         opt_lists=[[], [opt("Attrs1", 2, 1)], [opt("SetKV", 1, 3), opt("Attrs", 1, 1)], [opt("Attrs1", 2, 1), opt("Attrs1", 2, 1)]],
@@ -71,6 +71,7 @@ def rand_config():
         "JSONMode": [(1, 0), (2, 0), (3, 0)], "ColorMode": [(1, 0), (2, 0), (3, 0)],
         "Attrs": [(k, v) for k in (1, 2, 3, 4) for v in (1, 2, 3)],
         "Attrs1": [(k, v) for k in (1, 2, 5) for v in (1, 2)], "SetKV": [(k, v) for k in (2, 3, 6) for v in (4, 5)],
+        "Attrs0": [(0, 0), (1, 0), (2, 0), (3, 0)],
         "Skip": [(0, 0), (1, 0), (2, 0), (3, 0)],
         "Writer": [(1, 0), (2, 0), (3, 0)], "ErrorWriter": [(1, 0), (2, 0), (4, 0)],
         "AddWriter": [(1, 0), (2, 0), (3, 0)], "AddErrorWriter": [(2, 0), (4, 0)],
